@@ -387,6 +387,11 @@ class Gen(object):
         elif kind == 'lambda-late':
             if rng.random() < 0.3:
                 # defined by one expression, called from later ones
+                if self.modelled and rng.random() < 0.5:
+                    # ... in a context in which the name the body reads has been rebound meanwhile: the body sees
+                    # the Context as it is at the call
+                    return ('<%s py:with="g=lambda x: %s">${g(1)}<i py:with="%s=%s">${g(2)}</i><i py:for="%s in %s">${g(1)}</i></%s>'
+                            % (tag, esc_attr(body), v, rng.choice(VARS_ATOM + ["'W'"]), v, xs, tag))
                 return ('<%s py:with="g=lambda x: %s">${g(1)}<i py:for="y in %s">${g(y)}$%s</i></%s>'
                         % (tag, esc_attr(body), xs, rng.choice(VARS_ATOM), tag))
             src = 'map(lambda x: %s, %s)' % (body, xs)       # map() is lazy: the lambda runs item by item
@@ -398,11 +403,16 @@ class Gen(object):
         other = rng.choice(VARS_ATOM)
         if self.modelled:
             r = rng.random()
-            if r < 0.2:
+            if kind == 'codeblock-generator' and r < 0.3:
+                # the code block runs inside a scope (its function lands in that scope's dict) and the name its
+                # body reads is bound there
+                return ('<%s py:with="%s=%s">%s<i py:for="v in %s">$v</i>$%s</%s>${%s}'
+                        % (tag, v, rng.choice(VARS_ATOM + ["'W'"]), pre, esc_attr(src), other, tag, src))
+            if r < 0.25:
                 # the loop variable has the name the body reads late: when the next item is computed the loop's
                 # scope is not on the context
                 return pre + '<%s py:for="%s in %s">$%s<b>$%s</b></%s>' % (tag, v, esc_attr(src), v, other, tag)
-            if r < 0.4:
+            if r < 0.55:
                 # the name is rebound around the loop: the body sees the binding in force at each next()
                 return pre + ('<%s py:with="%s=%s"><i py:for="v in %s">$v</i>$%s</%s>'
                               % (tag, v, rng.choice(VARS_ATOM + ["'W'"]), esc_attr(src), other, tag))
